@@ -268,3 +268,80 @@ def check_C06(tier, seed):
 
 
 CHECKS = {"C01": check_C01, "C02": check_C02, "C03": check_C03, "C06": check_C06}
+
+
+# ---------------------------------------------------------------------- C20
+def check_C20(tier, seed):
+    import itertools
+    run = Run("C20", tier, seed)
+    quick = tier == "quick"
+    rng = random.Random(seed)
+    run.rule = ("histories: every sequence of inserts (full and partial bindings, overwrites) and clears that TLC's "
+                "state machine reaches within MaxOps, exported and replayed on the real IndexedCache, plus seeded random "
+                "longer histories over more keys/values; after every operation every lookup (all partial bindings) is "
+                "probed with check and retrieve; non-trivial = a history in which some retrieval returns >=1 entry and "
+                "some lookup matches a partial (wildcard) entry")
+    run.assumptions = ["coverage checks are probed only for lookups that bind >=1 key and inserts bind >=1 key (C20's domain)",
+                       "values and outputs are plain hashable Python values",
+                       "the reference store CacheIndexOps!RetrieveRef/CheckRef (TLA+) is the oracle"]
+    # (1) design level: the index contract is satisfiable by the nested-dict mechanism when the descent follows every
+    #     matching branch (PreferWildcard = FALSE): all histories, all lookups
+    run.mc("CacheIndex", "complete-descent", constants=dict(NKeys=3, NVals=2, MaxOps=3 if quick else 4, PreferWildcard=False),
+           invariants=("RetrieveOK", "CheckOK"), view="View")
+    # (2) behaviours: exported histories
+    cases = []
+    nk, nv, mo = 3, 2, 2 if quick else 3
+    hists = run.export("CacheIndex", "export", "HIST", constants=dict(NKeys=nk, NVals=nv, MaxOps=mo, PreferWildcard=False),
+                       invariants=("Export",), count=False)
+    lookups = [list(l) for l in itertools.product(range(nv + 1), repeat=nk)]
+    for h in hists:
+        cases.append({"family": "index", "nkeys": nk, "nvals": nv, "lookups": lookups,
+                      "ops": [{"op": e["op"], "b": e["b"], "o": e["o"]} for e in h]})
+    # (3) random histories beyond the bound
+    for _ in range(300 if quick else 6000):
+        nk2, nv2 = rng.choice([(3, 2), (4, 2), (3, 3), (4, 3)])
+        ops = []
+        for k in range(rng.randint(3, 8)):
+            if rng.random() < 0.08 and ops:
+                ops.append({"op": "clear", "b": [0] * nk2, "o": 0})
+            else:
+                b = [rng.choice([0] + list(range(1, nv2 + 1))) if rng.random() < 0.8 else 0 for _ in range(nk2)]
+                if not any(b):
+                    b[rng.randrange(nk2)] = 1
+                ops.append({"op": "insert", "b": b, "o": k + 1})
+        allk = [list(l) for l in itertools.product(range(nv2 + 1), repeat=nk2)]
+        cases.append({"family": "index", "nkeys": nk2, "nvals": nv2, "lookups": rng.sample(allk, min(len(allk), 12)),
+                      "ops": ops})
+    for k, c in enumerate(cases):
+        c["id"] = k + 1
+    traces = run.replay(cases)
+    by_id = {c["id"]: c for c in cases}
+    findings = [f for f in load_findings() if f["property"] == "C20"]
+    groups = {}
+    for t in traces:
+        groups.setdefault((t["nkeys"], t["nvals"]), []).append(t)
+    for (nk2, nv2), ts in sorted(groups.items()):
+        consts = dict(NKeys=nk2, NVals=nv2, PreferWildcard=True)
+        rej = run.validate_with("TraceIndex", ts, dict(consts, Judge="ref"))
+        # rejected by the reference: is it exactly the recorded deviation of the code's descent?
+        dev = run.validate_with("TraceIndex", [t for t in ts if t["id"] in rej], dict(consts, Judge="dev"), count=False) \
+            if rej else {}
+        for t in ts:
+            hit = any(e["op"] == "retrieve" and e["res"] for e in t["evs"])
+            wild = any(e["op"] == "insert" and 0 in e["b"] for e in t["evs"])
+            if hit and wild:
+                run.nontrivial.add(digest([e for e in t["evs"] if e["op"] in ("insert", "clear")]))
+            if t["id"] in rej:
+                f = next((f for f in findings if f["deviation"] == "PreferWildcard"), None)
+                if f is not None and t["id"] not in dev and rej[t["id"]][0]["clause"] in f["clauses"]:
+                    run.known_finding(f, f"history {t['id']}: {rej[t['id']][0]['clause']} at event {rej[t['id']][0]['at']}")
+                    run.extra["known_finding_histories"] = run.extra.get("known_finding_histories", 0) + 1
+                else:
+                    run.violation(by_id[t["id"]], t, rej[t["id"]], family="index")
+        if len(run.samples) < 2 and ts:
+            run.samples.append({"history": [e for e in ts[-1]["evs"] if e["op"] in ("insert", "clear")],
+                                "probes": [e for e in ts[-1]["evs"] if e["op"] in ("check", "retrieve")][:6]})
+    return run.finish()
+
+
+CHECKS["C20"] = check_C20
